@@ -80,15 +80,15 @@ macro_rules! vops { ($reg:expr, $p:expr, $V:ident, $n:expr, [$($i:tt)+]) => {{
     binforms!($reg, ep, p, $V, n, "mul", *, *=);
     binforms!($reg, ep, p, $V, n, "div", /, /=);
     binforms!($reg, ep, p, $V, n, "rem", %, %=);
-    binforms!($reg, ep_sym, p, $V, n, "shl", <<, <<=);
-    binforms!($reg, ep_sym, p, $V, n, "shr", >>, >>=);
-    binforms!($reg, ep_sym, p, $V, n, "bitand", &, &=);
-    binforms!($reg, ep_sym, p, $V, n, "bitor", |, |=);
-    binforms!($reg, ep_sym, p, $V, n, "bitxor", ^, ^=);
+    binforms!($reg, ep_symi, p, $V, n, "shl", <<, <<=);
+    binforms!($reg, ep_symi, p, $V, n, "shr", >>, >>=);
+    binforms!($reg, ep_symi, p, $V, n, "bitand", &, &=);
+    binforms!($reg, ep_symi, p, $V, n, "bitor", |, |=);
+    binforms!($reg, ep_symi, p, $V, n, "bitxor", ^, ^=);
     ep!($reg, format!("{}_add_sv", p), n + 1, |a| { let x: $V<T> = Flat::rd(&a[..n]); Out::of((a[n] + x).flat()) });
     ep!($reg, format!("{}_mul_sv", p), n + 1, |a| { let x: $V<T> = Flat::rd(&a[..n]); Out::of((a[n] * x).flat()) });
     ep!($reg, format!("{}_neg", p), n, |a| { let x: $V<T> = Flat::rd(a); Out::of((-x).flat()) });
-    ep_sym!($reg, format!("{}_not", p), n, |a| { let x: $V<T> = Flat::rd(a); Out::of((!x).flat()) });
+    ep_symi!($reg, format!("{}_not", p), n, |a| { let x: $V<T> = Flat::rd(a); Out::of((!x).flat()) });
     // fused multiply-add: inherent method (with broadcast) and the 8 trait forms
     ep!($reg, format!("{}_mul_add_free", p), 3 * n, |a| { let x: $V<T> = Flat::rd(&a[..n]); let y: $V<T> = Flat::rd(&a[n..2 * n]); let z: $V<T> = Flat::rd(&a[2 * n..]); #[allow(deprecated)] let r: $V<T> = vek::ops::mul_add(x, y, z); Out::of(r.flat()) });
     ep!($reg, format!("{}_mul_add", p), 3 * n, |a| { let x: $V<T> = Flat::rd(&a[..n]); let y: $V<T> = Flat::rd(&a[n..2 * n]); let z: $V<T> = Flat::rd(&a[2 * n..]); Out::of(x.mul_add(y, z).flat()) });
@@ -107,11 +107,11 @@ macro_rules! vops { ($reg:expr, $p:expr, $V:ident, $n:expr, [$($i:tt)+]) => {{
     ep!($reg, format!("{}_product", p), n, |a| { let x: $V<T> = Flat::rd(a); Out::of(vec![x.product()]) });
     ep!($reg, format!("{}_average", p), n, |a| { let x: $V<T> = Flat::rd(a); Out::of(vec![x.average()]) });
     ep!($reg, format!("{}_reduce", p), n, |a| { let x: $V<T> = Flat::rd(a); Out::of(vec![x.reduce(|u, v| <T as Uf>::uf(2, &[u, v]))]) });
-    ep_sym!($reg, format!("{}_reduce_min", p), n, |a| { let x: $V<T> = Flat::rd(a); Out::of(vec![x.reduce_min()]) });
-    ep_sym!($reg, format!("{}_reduce_max", p), n, |a| { let x: $V<T> = Flat::rd(a); Out::of(vec![x.reduce_max()]) });
-    ep_sym!($reg, format!("{}_reduce_bitand", p), n, |a| { let x: $V<T> = Flat::rd(a); Out::of(vec![x.reduce_bitand()]) });
-    ep_sym!($reg, format!("{}_reduce_bitor", p), n, |a| { let x: $V<T> = Flat::rd(a); Out::of(vec![x.reduce_bitor()]) });
-    ep_sym!($reg, format!("{}_reduce_bitxor", p), n, |a| { let x: $V<T> = Flat::rd(a); Out::of(vec![x.reduce_bitxor()]) });
+    ep_symi!($reg, format!("{}_reduce_min", p), n, |a| { let x: $V<T> = Flat::rd(a); Out::of(vec![x.reduce_min()]) });
+    ep_symi!($reg, format!("{}_reduce_max", p), n, |a| { let x: $V<T> = Flat::rd(a); Out::of(vec![x.reduce_max()]) });
+    ep_symi!($reg, format!("{}_reduce_bitand", p), n, |a| { let x: $V<T> = Flat::rd(a); Out::of(vec![x.reduce_bitand()]) });
+    ep_symi!($reg, format!("{}_reduce_bitor", p), n, |a| { let x: $V<T> = Flat::rd(a); Out::of(vec![x.reduce_bitor()]) });
+    ep_symi!($reg, format!("{}_reduce_bitxor", p), n, |a| { let x: $V<T> = Flat::rd(a); Out::of(vec![x.reduce_bitxor()]) });
     if n <= 8 {
         ep!($reg, format!("{}_reduce_partial_min", p), n, |a| { let x: $V<T> = Flat::rd(a); Out::of(vec![x.reduce_partial_min()]) });
         ep!($reg, format!("{}_reduce_partial_max", p), n, |a| { let x: $V<T> = Flat::rd(a); Out::of(vec![x.reduce_partial_max()]) });
@@ -132,10 +132,10 @@ macro_rules! vops { ($reg:expr, $p:expr, $V:ident, $n:expr, [$($i:tt)+]) => {{
     ep!($reg, format!("{}_is_any_negative", p), n, |a| { let x: $V<T> = Flat::rd(a); Out::flag(x.is_any_negative()) }).dom = Dom::NonZero;
     ep!($reg, format!("{}_are_all_positive", p), n, |a| { let x: $V<T> = Flat::rd(a); Out::flag(x.are_all_positive()) }).dom = Dom::NonZero;
     // ---- element-wise ----
-    ep_sym!($reg, format!("{}_min", p), 2 * n, |a| { let x: $V<T> = Flat::rd(&a[..n]); let y: $V<T> = Flat::rd(&a[n..]); Out::of($V::<T>::min(x, y).flat()) });
-    ep_sym!($reg, format!("{}_max", p), 2 * n, |a| { let x: $V<T> = Flat::rd(&a[..n]); let y: $V<T> = Flat::rd(&a[n..]); Out::of($V::<T>::max(x, y).flat()) });
-    ep_sym!($reg, format!("{}_min_s", p), n + 1, |a| { let x: $V<T> = Flat::rd(&a[..n]); Out::of($V::<T>::min(x, a[n]).flat()) });
-    ep_sym!($reg, format!("{}_max_s", p), n + 1, |a| { let x: $V<T> = Flat::rd(&a[..n]); Out::of($V::<T>::max(a[n], x).flat()) });
+    ep_symi!($reg, format!("{}_min", p), 2 * n, |a| { let x: $V<T> = Flat::rd(&a[..n]); let y: $V<T> = Flat::rd(&a[n..]); Out::of($V::<T>::min(x, y).flat()) });
+    ep_symi!($reg, format!("{}_max", p), 2 * n, |a| { let x: $V<T> = Flat::rd(&a[..n]); let y: $V<T> = Flat::rd(&a[n..]); Out::of($V::<T>::max(x, y).flat()) });
+    ep_symi!($reg, format!("{}_min_s", p), n + 1, |a| { let x: $V<T> = Flat::rd(&a[..n]); Out::of($V::<T>::min(x, a[n]).flat()) });
+    ep_symi!($reg, format!("{}_max_s", p), n + 1, |a| { let x: $V<T> = Flat::rd(&a[..n]); Out::of($V::<T>::max(a[n], x).flat()) });
     if n <= 8 {
         ep!($reg, format!("{}_partial_min", p), 2 * n, |a| { let x: $V<T> = Flat::rd(&a[..n]); let y: $V<T> = Flat::rd(&a[n..]); Out::of($V::<T>::partial_min(x, y).flat()) });
         ep!($reg, format!("{}_partial_max", p), 2 * n, |a| { let x: $V<T> = Flat::rd(&a[..n]); let y: $V<T> = Flat::rd(&a[n..]); Out::of($V::<T>::partial_max(x, y).flat()) });
@@ -152,9 +152,9 @@ macro_rules! vops { ($reg:expr, $p:expr, $V:ident, $n:expr, [$($i:tt)+]) => {{
         }
     }
     cmps!($reg, ep, p, $V, n; partial_cmpeq partial_cmpne partial_cmpge partial_cmpgt partial_cmple partial_cmplt);
-    cmps!($reg, ep_sym, p, $V, n; cmpeq cmpne cmpge cmpgt cmple cmplt);
+    cmps!($reg, ep_symi, p, $V, n; cmpeq cmpne cmpge cmpgt cmple cmplt);
     cmps_simd!($reg, ep, p, $V, n; partial_cmpeq_simd partial_cmpne_simd partial_cmpge_simd partial_cmpgt_simd partial_cmple_simd partial_cmplt_simd);
-    cmps_simd!($reg, ep_sym, p, $V, n; cmpeq_simd cmpne_simd cmpge_simd cmpgt_simd cmple_simd cmplt_simd);
+    cmps_simd!($reg, ep_symi, p, $V, n; cmpeq_simd cmpne_simd cmpge_simd cmpgt_simd cmple_simd cmplt_simd);
     ep!($reg, format!("{}_map", p), n, |a| { let x: $V<T> = Flat::rd(a); Out::of(x.map(|u| <T as Uf>::uf(1, &[u])).flat()) });
     ep!($reg, format!("{}_map2", p), 2 * n, |a| { let x: $V<T> = Flat::rd(&a[..n]); let y: $V<T> = Flat::rd(&a[n..]); Out::of(x.map2(y, |u, v| <T as Uf>::uf(2, &[u, v])).flat()) });
     ep!($reg, format!("{}_map3", p), 3 * n, |a| { let x: $V<T> = Flat::rd(&a[..n]); let y: $V<T> = Flat::rd(&a[n..2 * n]); let z: $V<T> = Flat::rd(&a[2 * n..]); Out::of(x.map3(y, z, |u, v, w| <T as Uf>::uf(3, &[u, v, w])).flat()) });
